@@ -9,11 +9,58 @@ P = "c07_pad"
 def jobs(tier):
     q = tier == "quick"
     return [
-        Job(R, "flt-asan", "random", workers=W, cases=1000 if q else 60000, maxtime=60 if q else 400),
-        Job(P, "flt-asan", "random", workers=W, cases=1000 if q else 40000, maxtime=60 if q else 400),
+        Job(R, "flt-asan", "random", workers=W, cases=20000 if q else 120000, maxtime=60 if q else 400),
+        Job(P, "flt-asan", "random", workers=W, cases=6000 if q else 40000, maxtime=60 if q else 400),
     ] + ([] if q else [Job(R, "flt-fuzz", "fuzz", fuzz_jobs=8, fuzz_time=180),
-                       Job(P, "flt-fuzz", "fuzz", fuzz_jobs=8, fuzz_time=120)])
+                       Job(P, "flt-fuzz", "fuzz", fuzz_jobs=8, fuzz_time=90)])
 
 
-PROP = dict(jobs=jobs, rule="placeholder", required_labels={"any": {}}, exhaustive_parts={}, assumptions=[])
-TEXT = dict(technique="placeholder", level="placeholder", note="placeholder")
+PROP = dict(
+    jobs=jobs,
+    rule="c07_repacketizer: a case is a pool of 1-6 packets (model-serialised codes 0-3, CBR/VBR, 1-48 frames of 0..1275 bytes with "
+         "boundary bias, padding none/zeros/0x01/extension payload/arbitrary bytes; configuration-incompatible and mutated (invalid) "
+         "packets; sometimes real encoder output; re-emitted outputs are fed back) and 1-24 operations init / cat / out / "
+         "out_range(b,e) incl. illegal ranges, each compared with the model (frames with owning packet and per-frame extension list, "
+         "TOC, duration) and followed by 1-3 maxlen probes in exact allocations. Non-trivial = sequence with >= 2 accepted cats "
+         "followed by an output over a strict sub-range. c07_pad: a case is one packet (same generator) padded/unpadded in place, or a "
+         "1-8 stream multistream packet, or 2-6 encoder packets (optionally merged to multi-frame packets) decoded by twin decoders "
+         "original vs padded vs unpad(pad()). Non-trivial = pad that moves the padding-length field across the 1-byte/2-byte boundary. "
+         "distinct = hash of the operation/packet structure.",
+    required_labels={"any": {
+        R + "/cat:accepted": 5000, R + "/cat:rejected-invalid": 500, R + "/cat:rejected-incompatible": 500, R + "/cat:rejected-120ms": 500,
+        R + "/cat:with-extensions": 500, R + "/out:strict-sub-range-after-2-cats": 1000, R + "/out:illegal-range": 500,
+        R + "/out:code0": 500, R + "/out:code1": 300, R + "/out:code2": 300, R + "/out:code3-cbr": 300, R + "/out:code3-vbr": 300,
+        R + "/out:with-extensions": 300, R + "/out:split-with-extensions": 40, R + "/pool:encoder": 100, R + "/pool:re-emitted": 1000,
+        P + "/pad:crosses-255": 500, P + "/pad:with-extensions": 100, P + "/pad:from-code0": 100, P + "/pad:from-code1": 100,
+        P + "/pad:from-code2": 100, P + "/pad:from-code3": 100, P + "/pad:invalid": 50, P + "/pad:bad-arg": 50,
+        P + "/unpad:shrinks": 300, P + "/unpad:invalid": 50, P + "/ms:pad-multi": 300, P + "/ms:unpad-shrinks": 300,
+        P + "/twin:decoded": 150, P + "/twin:merged": 40, P + "/twin:ms-decoded": 150, P + "/twin:celt": 100, P + "/twin:silk": 10,
+    }},
+    exhaustive_parts={},
+    assumptions=[
+        "The executable model in engine/rfc_framing.hpp (parser and serializer) is a faithful transcription of RFC 6716 section 3 / App. B; "
+        "it decides validity, frames and the canonical (smallest) framing that unpad must produce.",
+        "Extension areas of submitted and emitted packets are read with opus_packet_extensions_parse (checked by C16).",
+        "Caller preconditions respected: packets stay allocated while the repacketizer borrows them; data pointers are never NULL; "
+        "output buffers are exact-size heap blocks of maxlen bytes.",
+        "Known findings excluded by construction and replayed from corpus/C07/known/: F3 (range cuts a multi-frame packet carrying "
+        "extensions), F7 (carried extension payload makes the output exceed 1277 bytes per frame), F12 (padding that is not a "
+        "well-formed extension sequence makes out/out_range/pad fail with OPUS_INTERNAL_ERROR).",
+        "opus.h's second size promise (frames + submitted bytes) is not part of the property text; it is false for merged CBR packets "
+        "with frames >= 252 bytes and is only counted (label out:exceeds-frames-plus-submitted-bytes).",
+    ],
+)
+
+TEXT = dict(
+    technique="stateful model-based property testing of the repacketizer (operation sequences vs a frame/extension model, RFC framing "
+              "model as parser oracle), in-place pad/unpad round trips against the canonical framing, twin-decoder metamorphic test on "
+              "real encoder output, ASan/UBSan with exact-size buffers, plus libFuzzer on both targets",
+    level="Exploration: every cat verdict (valid, configuration-compatible, <= 120 ms), get_nb_frames after every step, unchanged contents "
+          "after rejection (full re-emission), every legal out/out_range output (valid packet, exactly the selected frames byte for byte, "
+          "configuration bits, carried extensions), BAD_ARG for illegal ranges, the maxlen relation in exact allocations, the 1277*frames "
+          "bound for outputs without extensions; pad (exact new length, same frames/extensions, argument errors), unpad (canonical, "
+          "idempotent, never longer, unpad(pad)==unpad), the multistream variants per stream, and identical PCM + final range for "
+          "original / padded / re-unpadded encoder packets. No claim beyond the sampled sequences.",
+    note="Trusted: engine/rfc_framing.hpp, ASan red zones as the out-of-bounds oracle. Work per case is bounded by constants (<= 24 "
+         "operations, <= 40 pool packets, <= 6 encoder frames).",
+)
